@@ -334,6 +334,43 @@ def _solver(strategy):
 _skn = [0]
 
 
+def skolemise(g):
+    """strip outer universals / implications of a goal without splitting conjunctions: returns (hypotheses, body)"""
+    hyps = []
+    while True:
+        if z3.is_implies(g):
+            hyps.append(g.arg(0))
+            g = g.arg(1)
+        elif z3.is_quantifier(g) and g.is_forall():
+            consts = []
+            for i in range(g.num_vars()):
+                _skn[0] += 1
+                consts.append(z3.Const('%s!sk%d' % (g.var_name(i), _skn[0]), g.var_sort(i)))
+            g = z3.substitute_vars(g.body(), *reversed(consts))
+        else:
+            return hyps, g
+
+
+def goal_pieces(ob):
+    if not ob.cases:
+        return split_goal(ob.goal)
+    out = []
+    # conjunctions ABOVE the quantifier are split as usual; below it the case analysis decides
+    tops = [ob.goal]
+    if z3.is_and(ob.goal):
+        tops = list(ob.goal.children())
+    for top in tops:
+        hyps, body = skolemise(top)
+        whole = z3.Implies(z3.And(*hyps), body) if hyps else body
+        cs = case_split([whole], ob.cases)
+        if len(cs) == 1:
+            out += split_goal(top)
+            continue
+        out += split_goal(cs[0])      # var == term: ground, conjunct by conjunct
+        out += cs[1:]                 # the other case + exhaustiveness: one query each (instantiations shared by the conjuncts)
+    return out
+
+
 def case_split(pieces, cases):
     """contract-directed case analysis on a skolemised bound variable: G(v) follows from G(T) and (v != T ==> G(v))"""
     if not cases:
@@ -341,7 +378,9 @@ def case_split(pieces, cases):
     out = []
     for p in pieces:
         done = False
-        for var, term in cases:
+        for case in cases:
+            var, term = case[0], case[1]
+            other = case[2] if len(case) > 2 else None
             sk = None
             todo = [p]
             seen = set()
@@ -356,7 +395,14 @@ def case_split(pieces, cases):
                     todo.extend(x.children())
             if sk is not None and sk.sort() == term.sort():
                 out.append(z3.substitute(p, (sk, term)))
-                out.append(z3.Implies(sk != term, p))
+                if other is None:
+                    out.append(z3.Implies(sk != term, p))
+                else:
+                    # G(v) follows from G(T), (C(v) ==> G(v)) and the exhaustiveness  guard(v) ==> v == T or C(v)
+                    cond = z3.substitute(other[1], (other[0], sk))
+                    out.append(z3.Implies(cond, p))
+                    hyps, _body = skolemise(p)
+                    out.append(z3.Implies(z3.And(*hyps) if hyps else z3.BoolVal(True), z3.Or(sk == term, cond)))
                 done = True
                 break
         if not done:
@@ -637,6 +683,21 @@ def check(pc, goal, timeout_ms):
 
 def sample_refute(pc, goal, seed, tries=6):
     import random
+    # only for ground obligations (DESIGN.md 2.7): with quantified hypotheses the model search itself is the expensive part
+    for f in list(pc) + [goal]:
+        if term_size(f)[0] >= 5000:
+            continue
+        todo = [f]
+        seen = set()
+        while todo:
+            x = todo.pop()
+            if x.get_id() in seen:
+                continue
+            seen.add(x.get_id())
+            if z3.is_quantifier(x):
+                return None
+            if z3.is_app(x):
+                todo.extend(x.children())
     rnd = random.Random(1000 + seed)
     arrays = []
     seen = set()
@@ -820,7 +881,7 @@ def verify_function(tu, reg, fname, prop='CVC', timeout_ms=None, kinds=None, rep
                 detail.append('remaining instances not tried (budget of this obligation used up)')
                 break
             r, dt, model, reason = 'unsat', 0.0, None, ''
-            for piece in case_split(split_goal(ob.goal), ob.cases):
+            for piece in goal_pieces(ob):
                 r1, dt1, model1, reason1 = check(ob.pc, piece, timeout_ms)
                 dt += dt1
                 if TRACE:
